@@ -773,11 +773,33 @@ class Unit:
         for a in src.attrs_in(s0, s1):
             if a["name"].split("::")[-1] in self.E1_DROP:
                 eds.append((a["span"][0], a["span"][1], "", None))
+        # E15: `tokio::spawn(async move { .. })` -- the block is the body of ANOTHER task; it is replaced
+        # by an opaque task value (its text is not part of this slice; where it matters it is a
+        # slice of its own, e.g. dispatch_one#reply)
+        asyncs = [n for n in sub if n["k"] == "async"]
+        spawned = []
+        if getattr(self, "e15", False):
+            for n in sub:
+                if n["k"] == "call" and n["path"].split("::")[-1] == "spawn" and len(n.get("args", [])) == 1:
+                    a0, a1 = n["args"][0]
+                    hit = [x for x in asyncs if x["span"][0] == a0 and x["span"][1] == a1]
+                    if hit:
+                        eds.append((a0, a1, "crate::spawned_task()", None))
+                        spawned.append((a0, a1))
+                        self._log("E15", src, a0, "tokio::spawn(async move {..})", "async block -> opaque task value")
         if self.drop_async:
             for n in sub:
                 if n["k"] == "await":
-                    eds.append((n["base_end"], n["span"][1], "", None))
-                    self._log("E2", src, n["span"][0], ".await", "")
+                    if any(a0 <= n["span"][0] and n["span"][1] <= a1 for (a0, a1) in spawned):
+                        continue
+                    if getattr(self, "forbid_await", False):
+                        # the slice runs while a message taken from the input is held by a future that
+                        # select! may drop: a suspension point here is an obligation that cannot be met
+                        eds.append((n["base_end"], n["span"][1], ".await_point()", None))
+                        self._log("E2", src, n["span"][0], ".await", ".await_point() (suspension point under obligation)")
+                    else:
+                        eds.append((n["base_end"], n["span"][1], "", None))
+                        self._log("E2", src, n["span"][0], ".await", "")
         for n in sub:
             if n["k"] == "macro" and n["path"].split("::")[-1] == "select":
                 eds += self._select_edits(src, n)
